@@ -146,6 +146,13 @@ def model_kwargs(entry, missing_label, classes, seed=0, variant=0):
         return {"reg": _reg(seed, np.nan if classes is not REG else missing_label)}
     if m == "ensemble":
         return {"ensemble": (_ensemble_list, _ensemble)[variant % 2](missing_label, classes, seed)}
+    if m == "ensemble_sampler":
+        # ONE classifier that can sample probability vectors (sample_proba) stands in for a committee
+        # (sampling from the Dirichlet needs positive pseudo counts: class_prior > 0 is a documented precondition)
+        from skactiveml.classifier import ParzenWindowClassifier
+
+        return {"ensemble": ParzenWindowClassifier(classes=list(classes), missing_label=missing_label,
+                                                    class_prior=0.5, random_state=seed)}
     if m == "fourds":
         from sklearn.mixture import BayesianGaussianMixture
 
@@ -252,6 +259,15 @@ def entries():
         model="ensemble", samplewise=True, cost=3)
     add("ExpectedModelChangeMaximization(bootstrap_size=2,ord=1)", "ExpectedModelChangeMaximization",
         {"bootstrap_size": 2, "ord": 1}, model="reg", cost=3)
+    # a committee sampled from ONE classifier (sample_proba) with the sampling seed 0 (a falsy seed is a seed) / 3
+    sp = {"sample_predictions_method_name": "sample_proba"}
+    add("QueryByCommittee(KL_divergence,sample_proba,seed=0)", "QueryByCommittee",
+        dict(sp, method="KL_divergence", sample_predictions_dict={"random_state": 0, "n_samples": 4}),
+        model="ensemble_sampler", cost=3)      # (the draws are positional: not a sample-wise scorer)
+    add("GreedyBALD(sample_proba,seed=3)", "GreedyBALD",
+        dict(sp, sample_predictions_dict={"random_state": 3, "n_samples": 4}), model="ensemble_sampler", cost=3)
+    add("BatchBALD(sample_proba,seed=0)", "BatchBALD",
+        dict(sp, sample_predictions_dict={"random_state": 0, "n_samples": 4}), model="ensemble_sampler", cost=3)
     # n_train given as a number of samples (int) instead of a fraction
     add("ExpectedModelChangeMaximization(n_train=2)", "ExpectedModelChangeMaximization", {"n_train": 2}, model="reg",
         cost=3)
